@@ -83,6 +83,11 @@ Record ncase := { nc_id : Z; nc_actions : list mact; nc_obs : list hobs }.
 Definition m_mismatch (c : ncase) : bool :=
   negb (obsl_match (mrun_obs n_node minit (nc_actions c)) (nc_obs c)).
 
+(* diagnosis of a mismatch: the same history under the product model whose prefix is the DATABASE name (all nodes of one
+   database name share their entries: seeded C04-g and every change that drops the node from the key) *)
+Definition m_mismatch_db (c : ncase) : bool :=
+  negb (obsl_match (mrun_obs n_db minit (nc_actions c)) (nc_obs c)).
+
 (* the observations of one node, in step with [proj] *)
 Fixpoint proj_obs {A} (name : string) (h : list mact) (os : list A) : list A :=
   match h, os with
@@ -104,3 +109,4 @@ Definition m_violation (c : ncase) : bool :=
 
 Definition mids (f : ncase -> bool) (cs : list ncase) : list Z := map nc_id (filter f cs).
 Definition mreport (cs : list ncase) : list (list Z) := [mids m_mismatch cs; mids m_violation cs].
+Definition mdiag (cs : list ncase) : list (list Z) := [mids m_mismatch cs; mids m_mismatch_db cs].
